@@ -346,20 +346,22 @@ from . import fam_d2 as D2    # noqa: E402
 
 _SEARCH = (("mofun.mofun", None), ("mofun.helpers", ("atoms_of_type", "atoms_by_type_dict", "group_duplicates", "remove_duplicates", "position_index_farthest_from_axis",
                                                         "quaternion_from_two_vectors", "quaternion_from_two_vectors_around_axis", "positions_are_unchanged")))
+_SEARCH = _SEARCH + (("mofun.atoms", ("Atoms.elements", "Atoms.symbols", "Atoms.copy", "Atoms.translate", "Atoms.cell_is_orthorhombic", "find_unchanged_atom_pairs", "Atoms.__len__")),)
 _ATOMS = (("mofun.atoms", None),)
 _SCOPES = {
     "C01": _SEARCH, "C02": _SEARCH, "C03": _SEARCH, "C04": _SEARCH, "C05": _SEARCH, "C06": _SEARCH, "C07": _SEARCH, "C08": _SEARCH,
     "C09": _ATOMS, "C10": _ATOMS, "C11": _ATOMS, "C12": _ATOMS,
     "C13": (("mofun.atoms", ("Atoms.load_lmpdat", "Atoms.save_lmpdat")), ("mofun.helpers", ("guess_elements_from_masses",))),
     "C14": (("mofun.helpers", ("guess_elements_from_masses",)), ("mofun.atoms", ("Atoms.load_lmpdat",))),
-    "C15": (("mofun.atoms", ("Atoms.load_p1_cif", "Atoms.save_p1_cif")),),
-    "C16": (("mofun.atoms", ("Atoms.load_cml",)),),
+    "C15": (("mofun.atoms", ("Atoms.load_p1_cif", "Atoms.save_p1_cif", "Atoms.load", "Atoms.save", "Atoms.cell_abc_alpha_beta_gamma")),),
+    "C16": (("mofun.atoms", ("Atoms.load_cml", "Atoms.load", "Atoms.__init__")),),
     "C17": (("mofun.detect_bonds", None),),
     "C18": (("mofun.rough_uff", None),),
     "C19": (("mofun.rough_uff", None),),
     "C20": (("mofun.cli.mofun_cli", None),),
 }
 for _id, _sc in _SCOPES.items():
+    PROPERTIES[_id]["rules"].append((G.G7_api_contract_pitfalls, "%s API contracts: insertion points as indices, span versus length, memoised functions / caching properties, stored tables tested by truth value" % _id, {"scope": _sc}))
     PROPERTIES[_id]["rules"].append((G.G4_numpy_container_pitfalls, "%s container pitfalls: ndmin=2 of an empty list, groupby on unsorted input, isinstance(., int) against numpy callers" % _id, {"scope": _sc}))
     PROPERTIES[_id]["rules"].append((G.G6_stale_loop_cache, "%s a value computed from the outer loop variable is recomputed on every path of an outer iteration" % _id, {"scope": _sc}))
     PROPERTIES[_id]["rules"].append((G.G2_presence_tests, "%s presence tests: optional indices tested with `is None`, selections with len(), signed data not through its sum" % _id, {"scope": _sc}))
@@ -380,19 +382,24 @@ _EXTRA = {
             (C.C_axis_windows, "C04 triclinic windows: plane normals, widths, norms and inward signs are paired per axis"),
             (A2.A14b_fallback_axis, "C04 antiparallel poses are found: detection, angle test, non-degenerate fallback axis"),
             (C.C_return_shape, "C04 the search returns the shape its flag announces on every path (an empty search is an empty result, not an unpack error)")],
-    "C05": [(C.C_wrap_modulus, "C05 inserted atoms are wrapped with period exactly 1 in fractional coordinates (inside the cell, by a lattice translation)"),
+    "C05": [(C.C_fractional_wrap, "C05 triclinic wrap: fractional = positions . inverse(cell), back = fractional . cell (lattice vectors are rows)"),
+            (C.C_idx_find, "C05 the index tuples, positions and rotations returned by the search stay parallel (a replacement is placed at the site whose atoms it removes)"),
+            (C.C_wrap_modulus, "C05 inserted atoms are wrapped with period exactly 1 in fractional coordinates (inside the cell, by a lattice translation)"),
             (C.C_roll_gate, "C05 the roll about the matched axis is applied to every match with more than two atoms")],
     "C06": [(C.C_idx_replace, "C06.2 index tuples, positions and rotations of the matches stay parallel, so the terms of an inserted fragment are attached to the atoms of the same match")],
-    "C08": [(C.C_axis_windows, "C08 the reverse search finds the replaced site again on triclinic cells: plane normals, widths, norms and inward signs are paired per axis"),
+    "C08": [(C.C_fractional_wrap, "C08 triclinic wrap in the row convention (a wrong basis shifts inserted atoms by non-lattice vectors, so the reverse search does not find the site)"),
+            (C.C_axis_windows, "C08 the reverse search finds the replaced site again on triclinic cells: plane normals, widths, norms and inward signs are paired per axis"),
             (C.C_quaternion_layout, "C08 reversibility needs every pose to be found again: roll sense and roll branch test"),
             (A2.A14b_fallback_axis, "C08 reversibility needs every pose to be found again: antiparallel detection, angle test, fallback axis"),
             (C.C_roll_gate, "C08 the roll about the matched axis is applied to every match with more than two atoms"),
             (C.C_wrap_modulus, "C08 wraps are lattice translations (period 1 in fractional coordinates)")],
     "C09": [(E.E_override_both_directions, "C09 extending: exactly the superseded existing terms are removed (forward and reverse), every other term survives")],
     "C12": [(C.C_axis_diag, "C12 np.diag(cell) is the box only under the exact orthorhombic test")],
-    "C15": [(C.C_wrap_modulus, "C15 reading wraps fractional coordinates with period exactly 1"),
+    "C15": [(E.E_dispatch, "C15 the CIF reader / writer is reached through the dispatcher: explicit type beats extension, handles are not closed, file objects need a type"),
+            (C.C_wrap_modulus, "C15 reading wraps fractional coordinates with period exactly 1"),
             (C.C_axis_diag, "C15 Cartesian <-> fractional handling never uses the cell diagonal as the box without the orthorhombic test")],
     "C17": [(C.C_axis_diag, "C17 periodic images come from the lattice rows; the cell diagonal is never used as the box without the orthorhombic test")],
+    "C16": [(E.E_dispatch, "C16 the CML reader is reached through the dispatcher: explicit type beats extension, file objects need a type")],
     "C18": [(D2.D5_torsion_table, "C18.5 torsion case analysis agrees with the documented UFF case table on every abstract type combination"),
             (D2.D6_bond_order_precedence, "C18.4 user bond-order rules take precedence over every built-in guess and are forwarded by every parameter function"),
             (D2.D8_formula_reference, "C18.1-3 pair, bond and angle parameters: returned terms equal the documented formulas in normal form on every abstract input (incl. the cosine/periodic n, b table and the fourier coefficients)"),
